@@ -20,6 +20,10 @@ extern "C" {
 int pv_sem_init(void *sem, unsigned int value) __attribute__((weak));
 int pv_sem_wait(void *sem) __attribute__((weak));
 int pv_sem_post(void *sem) __attribute__((weak));
+// A thread created by the code under test announces itself, its end, and that it is about to join.
+void pv_thread_begin(void) __attribute__((weak));
+void pv_thread_end(void) __attribute__((weak));
+void pv_thread_join(void) __attribute__((weak));
 }
 
 namespace util {
